@@ -666,4 +666,55 @@ theorem c03_prefix_vfork_mt_witness :
     let s := idRun { mt := false } { pid := 100, ktid := 102, bufs := 102 } [.gettid, .otherVfork 101, .gettid]
     s.ktid = 102 ∧ s.bufs = 101 ∧ s.own = false := by decide
 
+/-! ### The recorder's session around the writer pool (Writers.Sess; tie: harness/c03_writer.c runs the real
+cmds/record.c under generated schedules and compares every step) -/
+
+/-- Whatever the schedule — buffers announced twice (REC_START twice for the first buffer of a fork child), ended or
+    left to the final flush, any interleaving of 1..n writers, flush_shmem_list and record_remaining_buffer at the
+    end —, the bytes of a buffer are appended to a data file at most once. -/
+theorem c03_session_writes_once (nw : Nat) (ops : List SOp) :
+    ((Sess.init nw).run ops).log.Nodup :=
+  Sess.run_nodup ops _ (by simp [Sess.init])
+
+/-- non-vacuity: a first buffer announced twice and never ended is queued twice by the final flush (both list
+    entries map the same memory) and written once; a buffer ended after its second announcement is written by a
+    writer thread and not again at the end -/
+example :
+    ((Sess.init 2).run [.start ⟨7, 0⟩, .start ⟨7, 0⟩, .start ⟨8, 0⟩, .start ⟨8, 0⟩, .fin ⟨8, 0⟩, .pick 1, .write 1,
+        .splice 1, .stop, .flushAll]).pool.writeList = [⟨7, 0⟩, ⟨7, 0⟩] ∧
+    ((Sess.init 2).run [.start ⟨7, 0⟩, .start ⟨7, 0⟩, .start ⟨8, 0⟩, .start ⟨8, 0⟩, .fin ⟨8, 0⟩, .pick 1, .write 1,
+        .splice 1, .stop, .flushAll, .remaining]).log = [⟨8, 0⟩, ⟨7, 0⟩] := by decide
+
+/-- what a woken writer takes (writer_thread, first critical section): the first queued buffer decides the task;
+    the writer registers for that task and takes exactly that task's buffers, in queue order; every other task's
+    buffers stay on buf_write_list in their order.  (copy_to_buffer relies on it: all queued buffers of a task are
+    either on buf_write_list or with the one writer registered for the task.) -/
+theorem c03_pick_takes_first_task_only {p p' : Pool} {i : Nat} {f : Bool} {first : WBuf} {rest : List WBuf}
+    (hl : p.writeList = first :: rest) (hp : p.pick i f = some p') :
+    p'.writeList = rest.filter (fun b => b.tid ≠ first.tid) ∧
+    (∃ w, p'.writers[i]? = some w ∧ w.tid = some first.tid ∧
+          w.head = first :: rest.filter (fun b => b.tid = first.tid)) ∧
+    (∀ b ∈ p'.writeList, b.tid ≠ first.tid) := by
+  unfold Pool.pick at hp
+  cases hw : p.writers[i]? with
+  | none => simp [hw] at hp
+  | some w =>
+    simp only [hw, hl] at hp
+    split at hp
+    · cases hp
+    · split at hp
+      · cases hp
+      · simp only [Option.some.injEq] at hp
+        subst hp
+        have hi : i < p.writers.length := by
+          rcases Nat.lt_or_ge i p.writers.length with h | h
+          · exact h
+          · simp [List.getElem?_eq_none h] at hw
+        refine ⟨rfl, ⟨{ w with tid := some first.tid,
+                                 head := first :: rest.filter (fun b => b.tid = first.tid) },
+                      by simp [List.getElem?_set, hi], rfl, rfl⟩, ?_⟩
+        intro b hb
+        simp only [List.mem_filter, decide_eq_true_eq] at hb
+        exact hb.2
+
 end Uft.C03
